@@ -2,7 +2,8 @@
    source texts is stable; the `check` listing determines every command.  Property theorems only. *)
 From Coq Require Import List NArith Bool.
 Import ListNotations.
-From HV Require Import Model.Chars Model.Parse Spec.Grammar Proofs.ParseSpec Proofs.ParseAll Proofs.ParseArea.
+From HV Require Import Model.Chars Model.Parse Spec.Grammar Spec.Lang Proofs.ParseSpec Proofs.ParseAll Proofs.ParseArea Proofs.ListingSpec.
+From HV Require Proofs.ListingProofs.
 Open Scope N_scope.
 
 (* clause 1a: every way of writing — any concrete syntax tree satisfying the context condition, with arbitrary
@@ -47,6 +48,16 @@ Print Assumptions C08_debug_injective.
 Theorem C08_display_injective_needs_types : ~ display_injective_stmt.
 Proof. exact display_injective_refuted. Qed.
 Print Assumptions C08_display_injective_needs_types.
+
+(* the whole listing line `KIND_syllables_dots AREA` determines the command, and `line:column` determines the location *)
+Theorem C08_listing_line_injective : forall k n d a k' n' d' a',
+  k < 6 -> k' < 6 -> grammar_shaped a -> grammar_shaped a' -> well_typed a -> well_typed a' ->
+  listing_line k n d a = listing_line k' n' d' a' -> k = k' /\ n = n' /\ d = d' /\ a = a'.
+Proof. exact ListingProofs.listing_injective. Qed.
+Print Assumptions C08_listing_line_injective.
+Theorem C08_location_injective : forall l c l' c', loc_text l c = loc_text l' c' -> l = l' /\ c = c'.
+Proof. exact ListingProofs.loc_injective. Qed.
+Print Assumptions C08_location_injective.
 
 Example C08_examples :
   let cs := [mkcmd 3 4 2 ([([Some 2; None], Some 13)], ([], None)); mkcmd 0 1 0 ([], ([], None)); mkcmd 5 2 1 ([], ([None], Some 3))] in
